@@ -90,6 +90,12 @@ def run_translators(spec):
         rc, out, _ = sh([binp] + tr["args"] + ["-out", tmp], 600, env=GOENV)
         dst = os.path.join(COQ, tr["out"])
         if rc != 0 or not os.path.exists(tmp):
+            # never evaluate anything against a stale generated file: without a fresh translation the
+            # theorems that depend on it are simply not re-checked (reported as a broken obligation)
+            if os.path.exists(dst):
+                os.remove(dst)
+            if os.path.exists(tmp):
+                os.remove(tmp)
             res.append((tr, False, out[-2000:]))
             continue
         new = open(tmp).read()
